@@ -17,6 +17,7 @@ enum Act {
     Next,
     Frames(u32), // next_frames().take(k), k = cap+1 observes the None
     Exhausted,
+    Clone, // the adaptor is replaced by its clone (which has seen the same frames)
 }
 impl Act {
     fn name(self) -> String {
@@ -24,12 +25,14 @@ impl Act {
             Act::Next => "next".into(),
             Act::Frames(k) => format!("next_frames:{k}"),
             Act::Exhausted => "is_exhausted".into(),
+            Act::Clone => "clone".into(),
         }
     }
     fn parse(s: &str) -> Option<Act> {
         Some(match s {
             "next" => Act::Next,
             "is_exhausted" => Act::Exhausted,
+            "clone" => Act::Clone,
             _ => Act::Frames(s.strip_prefix("next_frames:")?.parse().ok()?),
         })
     }
@@ -124,6 +127,10 @@ fn run_history_src_inner(i: &Init, acts: &[Act], check_from: usize, src_len: usi
                     }
                 }
             }
+            Act::Clone => {
+                let c2 = b.clone();
+                b = c2;
+            }
             Act::Exhausted => {
                 let e = b.is_exhausted();
                 let exp = ring_len == 0 && pulled >= src_len;
@@ -170,7 +177,7 @@ fn drain_case_inner(i: &Init) -> Option<Bad> {
 }
 
 fn alphabet(cap: u32) -> Vec<Act> {
-    let mut v = vec![Act::Next, Act::Exhausted];
+    let mut v = vec![Act::Next, Act::Exhausted, Act::Clone];
     for k in 0..=cap + 1 {
         // large capacities (scale probes): batch sizes at structured values only
         if cap <= 5 || k <= 1 || k + 1 >= cap {
@@ -301,7 +308,7 @@ fn main() {
             }
         }
     }
-    ctx.rule(&format!("initial states: capacity 1..=4 (thorough 1..=5) x every prefill (start,len) x source length 0..=2cap+1 ({} states); actions next(), next_frames().take(k) for k in 0..=cap+1 (k=cap+1 observes the None), is_exhausted(); unmerged: every history to depth {depth} replayed on a fresh Buffered over an instrumented source; merged: stateright BFS to fixpoint on (ring start, ring len, pulled, delivered) through witness replay, horizon two refills past the source's end; oracle: delivered stream == prefill ++ source ++ equilibrium, source pulled exactly `capacity` times when an operation finds the ring empty and never otherwise, is_exhausted == (ring empty and source exhausted), until_exhausted() from every initial state == prefill ++ source ++ pad with pad < capacity; scale probes (merged run and drain only): capacities 8 and 16 from structured (start, len, source length) states with batch sizes 0,1,cap-1,cap,cap+1; distinct by (initial state, history)", inits.len()));
+    ctx.rule(&format!("initial states: capacity 1..=4 (thorough 1..=5) x every prefill (start,len) x source length 0..=2cap+1 ({} states); actions next(), next_frames().take(k) for k in 0..=cap+1 (k=cap+1 observes the None), is_exhausted(), clone() (the adaptor is replaced by its clone, which must go on exactly where the original stood); unmerged: every history to depth {depth} replayed on a fresh Buffered over an instrumented source; merged: stateright BFS to fixpoint on (ring start, ring len, pulled, delivered) through witness replay, horizon two refills past the source's end; oracle: delivered stream == prefill ++ source ++ equilibrium, source pulled exactly `capacity` times when an operation finds the ring empty and never otherwise, is_exhausted == (ring empty and source exhausted), until_exhausted() from every initial state == prefill ++ source ++ pad with pad < capacity; scale probes (merged run and drain only): capacities 8 and 16 from structured (start, len, source length) states with batch sizes 0,1,cap-1,cap,cap+1; distinct by (initial state, history)", inits.len()));
     guard::set_hang_secs(300);
     let tot: Vec<(u64, u64)> = inits
         .par_iter()
